@@ -127,17 +127,62 @@ def suite_cross(ctx, res):
                         {"site": "c07-valid", "case": case["id"], "failed": m.get("failed")})
 
 
+def suite_maximum_color(ctx, res, n):
+    """Fonts written by maximum_color (complement vector table, optionally CBDT over >= 2 gid runs): same validity predicate."""
+    from concurrent.futures import ThreadPoolExecutor
+    from harness.props import C12
+
+    kinds = ["third-party", "colr1", "picosvg", "third-party", "colr0"]
+    jobs = []
+    for k in range(n):
+        kind = kinds[k % len(kinds)]
+        opts = {"keep": k % 3 != 2, "bitmaps": k % 2 == 0}
+        if kind == "third-party" and opts["bitmaps"]:
+            opts["notdef"] = True
+        jobs.append((kind, ctx.rng.getrandbits(32), opts))
+    with ThreadPoolExecutor(max_workers=8) as ex:
+        results = list(ex.map(C12.one, jobs))
+    ops, meta = [], []
+    for r in results:
+        m = {"kind": r["kind"], "seed": r["seed"], "opts": r.get("opts")}
+        res.count(key=("mc", r["kind"], r["seed"]), nontrivial=True)
+        if "skip" in r or r.get("rc") != 0:
+            res.stat("mc:skip")   # failures of maximum_color itself are C12's business
+            continue
+        res.stat("mc:ok:" + r["kind"])
+        try:
+            a1, a2 = roundtrip_and_abstract(r["out"], r["opts"].get("keep", True), False)
+        except Exception as e:  # noqa
+            import traceback
+            res.add_cex("maximum_color output does not load / fully decompile / re-save: " + type(e).__name__,
+                        dict(m, trace=traceback.format_exc()[-800:]), dict(m, site="c07-mc-roundtrip"))
+            continue
+        if a1 != a2:
+            res.add_cex("maximum_color output changes when re-saved and reloaded", dict(m, fields=[k2 for k2 in a1 if a1[k2] != a2.get(k2)]),
+                        dict(m, site="c07-mc-resave"))
+        res.stat("mc:strikes", len(a1["cblcStrikes"]))
+        ops.append({"op": "valid-font", "font": a1})
+        meta.append(m)
+    for m, v in zip(meta, ctx.driver.run(ops)):
+        if not v.get("valid", False):
+            res.add_cex("maximum_color output violates structural constraints: " + ",".join(v.get("failed", ["?"])),
+                        dict(m, failed=v.get("failed"), error=v.get("error")), dict(m, site="c07-mc-valid", failed=v.get("failed")))
+
+
 def run(ctx, res):
     nano.init()
     res.rule = ("fonts from the C01/C02 generator (shape reuse across glyphs), the C04 generator (prefix-related glyph names, sequences) and the C14 "
                 "generator (bitmaps, gid gaps), all 13 formats round-robin, .ttf or .otf by format; plus fixed prefix-named cross-glyph reuse cases "
-                "in both input orders; every font non-trivial")
+                "in both input orders; plus fonts written by maximum_color (nanoemoji-built and third-party inputs, with/without --bitmaps "
+                "incl. colour glyphs in two gid runs, names kept/stripped); every font non-trivial")
     suite_cross(ctx, res)
     suite_fonts(ctx, res, ctx.budget(39, 650))
+    suite_maximum_color(ctx, res, ctx.budget(5, 60))
 
 
 def search(ctx, res, broken):
     suite_fonts(ctx, res, 130)
+    suite_maximum_color(ctx, res, 20)
 
 
 def replay(ctx, res, payload):
